@@ -210,14 +210,14 @@ func checks() map[string]CheckDef {
 				Labels: []string{"C06/another-candidate-takes-over", "C06/new-sync-peer-is-asked"}},
 			{Pkg: "transports/p2p/p2psync", Func: "HarnessInvWithoutSyncPeer", Quick: [][]int64{{0, 0}, {1, 0}, {0, 1}}, Thorough: [][]int64{{2, 0}, {3, 0}, {2, 1}},
 				Labels: []string{"C06/announced-unknown-block-is-requested", "C06/answer-to-our-own-request-is-processed"}},
-			{Pkg: "transports/p2p/p2psync", Func: "HarnessSyncInvariantStep", Quick: [][]int64{{1, 0, 0}, {2, 1, 0}, {2, 0, 1}}, Thorough: [][]int64{{3, 1, 0}, {3, 0, 1}, {2, 2, 0}},
+			{Pkg: "transports/p2p/p2psync", Func: "HarnessSyncInvariantStep", Quick: [][]int64{{1, 0, 0}, {1, 1, 0}, {2, 0, 1}}, Thorough: [][]int64{{2, 1, 0}, {2, 2, 0}, {3, 0, 1}},
 				Labels: []string{"C06/sync-invariant-preserved-by-every-event"}},
 			{Pkg: "transports/p2p/p2psync", Func: "HarnessStalledSyncPeer", Quick: [][]int64{{1, 0}, {0, 1}}, Thorough: [][]int64{{2, 0}, {3, 0}, {1, 1}},
 				Labels: []string{"C06/stalled-sync-peer-is-disconnected", "C06/a-sync-peer-is-chosen-after-a-stall", "C06/sync-peer-within-the-stall-limit-or-caught-up-is-kept"}},
 			{Pkg: "transports/p2p/p2psync", Func: "HarnessHeadersBatch", Quick: [][]int64{{2, 1}, {2, 2}}, Thorough: [][]int64{{3, 2}, {4, 1}},
 				Labels: []string{"C07/exactly-one-follow-up-request", "C07/request-stops-at-the-next-checkpoint", "C07/after-the-last-checkpoint-requests-are-unbounded", "C07/matching-checkpoint-advances-sync-from-it"}},
 		},
-		Bounds: []string{"inductive step: the invariant 'a sync peer is a registered peer with its bookkeeping and headers are expected; whenever a registered candidate is strictly ahead of our tip there is a sync peer' is preserved by one arbitrary event (peer connects / leaves, headers from any peer with any outcome, inv from any peer, periodic check with any idle time) from every manager state of m registered peers (quick m<=2, thorough m<=3) satisfying it", "C06 is claimed as step obligations of the default sync engine, not as a liveness proof: P1 choice of the sync peer and the first request (m<=3 candidate peers connecting in turn with arbitrary best heights, arbitrary own tip, n<=2 arbitrary ascending checkpoints or checkpoints disabled, manager built by the real constructor); P2 an answer that makes progress keeps the peer and is followed by exactly one request from the new tip; P3 batch continuation incl. checkpoint hand-over (HarnessHeadersBatch, shared with C07); P4 a block announced by inv (by the sync peer or by another connected peer, the node being current) after an answer that brought nothing new is requested from the announcer and the request really reaches the peer's send queue (through the real duplicate-request filter of peer.Peer); P5 when the sync peer leaves, another candidate takes over and is asked; P7 with no sync peer ever chosen (all peers behind) a caught-up peer's inv is followed by a request whose answer is processed, not dropped as unrequested; P6 the periodic check disconnects a sync peer that delivered nothing for more than the stall limit (any idle time up to 2^20 s except within 10 s of the 180 s limit) while we are below its height and asks another candidate, and keeps one within the limit or caught up",
+		Bounds: []string{"inductive step: the invariant 'a sync peer is a registered peer with its bookkeeping and headers are expected; whenever a registered candidate is strictly ahead of our tip there is a sync peer; while a request of ours to a registered peer is unanswered headers are expected' is preserved by one arbitrary event (peer connects / leaves, headers from any peer with any outcome, inv from any peer, periodic check with any idle time) from every manager state of m registered peers (quick m<=2, thorough m<=3) satisfying it", "C06 is claimed as step obligations of the default sync engine, not as a liveness proof: P1 choice of the sync peer and the first request (m<=3 candidate peers connecting in turn with arbitrary best heights, arbitrary own tip, n<=2 arbitrary ascending checkpoints or checkpoints disabled, manager built by the real constructor); P2 an answer that makes progress keeps the peer and is followed by exactly one request from the new tip; P3 batch continuation incl. checkpoint hand-over (HarnessHeadersBatch, shared with C07); P4 a block announced by inv (by the sync peer or by another connected peer, the node being current) after an answer that brought nothing new is requested from the announcer and the request really reaches the peer's send queue (through the real duplicate-request filter of peer.Peer); P5 when the sync peer leaves, another candidate takes over and is asked; P7 with no sync peer ever chosen (all peers behind) a caught-up peer's inv is followed by a request whose answer is processed, not dropped as unrequested; P6 the periodic check disconnects a sync peer that delivered nothing for more than the stall limit (any idle time up to 2^20 s except within 10 s of the 180 s limit) while we are below its height and asks another candidate, and keeps one within the limit or caught up",
 			"the convergence argument built from the steps (each answered request either adds headers or ends at the peer's tip; every such state has exactly one outstanding request or is current) is an argument, not solver-checked"},
 		Outside: []string{"the ticker and the blockHandler select loop, sockets and goroutines; the network-speed half of the periodic check (bytes received per tick)", "the experimental engine (transports/p2p/peer + network), whose sync loop is goroutines over sockets", "reorganisation to a more-work chain is C01/C03 (storage) - the engine only has to keep asking", "headers arriving from a peer that is not the sync peer", "map iteration order in startSync is insertion order in the encoder (the choice among equal candidates is by crypto/rand, modelled as arbitrary)"},
 		Stubs:   []string{"service.Headers replaced by a stub with an arbitrary tip (height, hash, IsCurrent)", "service.Chains stub returning the stated outcome per header", "real peerpkg.Peer objects marked connected with a no-op connection; queued messages and Disconnect observed through in-package helpers", "crypto/rand.Int returns an arbitrary value in [0, max)", "SyncManager.logSyncState (logging) is a no-op"},
